@@ -81,18 +81,17 @@ func (c *AttrCache) Get(path string, server ...*AbsfsNFS) (*NFSAttrs, bool) {
 		s = server[0]
 	}
 
-	c.mu.RLock()
+	// A hit and its LRU refresh happen in one critical section: with a read
+	// lock followed by a separate write lock, a concurrent Put could evict the
+	// entry that was just returned as the most recently used one.
+	c.mu.Lock()
 	cached, ok := c.cache[path]
 	if ok && time.Now().Before(cached.expireAt) {
+		// Update access log (LRU tracking)
+		c.updateAccessLog(path)
+
 		// Handle negative cache entry
 		if cached.isNegative {
-			c.mu.RUnlock()
-
-			// Update access log (LRU tracking)
-			c.mu.Lock()
-			if _, stillExists := c.cache[path]; stillExists {
-				c.updateAccessLog(path)
-			}
 			c.mu.Unlock()
 
 			// Record negative cache hit for metrics
@@ -110,7 +109,7 @@ func (c *AttrCache) Get(path string, server ...*AbsfsNFS) (*NFSAttrs, bool) {
 			return nil, true
 		}
 
-		// Copy attributes while holding RLock to prevent data races
+		// Copy attributes while holding the lock to prevent data races
 		attrs := &NFSAttrs{
 			Mode:   cached.attrs.Mode,
 			Size:   cached.attrs.Size,
@@ -120,15 +119,6 @@ func (c *AttrCache) Get(path string, server ...*AbsfsNFS) (*NFSAttrs, bool) {
 		}
 		attrs.SetMtime(cached.attrs.Mtime())
 		attrs.SetAtime(cached.attrs.Atime())
-		c.mu.RUnlock()
-
-		// Update access log (LRU tracking)
-		c.mu.Lock()
-		// Revalidate that entry still exists before updating access log
-		// This prevents race condition where entry could be deleted between locks
-		if _, stillExists := c.cache[path]; stillExists {
-			c.updateAccessLog(path)
-		}
 		c.mu.Unlock()
 
 		// Record cache hit for metrics
@@ -144,7 +134,7 @@ func (c *AttrCache) Get(path string, server ...*AbsfsNFS) (*NFSAttrs, bool) {
 
 		return attrs, true
 	}
-	c.mu.RUnlock()
+	c.mu.Unlock()
 
 	// Record cache miss for metrics
 	if s != nil {
@@ -525,26 +515,22 @@ func NewDirCache(timeout time.Duration, maxEntries int, maxDirSize int) *DirCach
 
 // Get retrieves cached directory entries if they exist and are not expired
 func (c *DirCache) Get(path string) ([]os.FileInfo, bool) {
-	c.mu.RLock()
+	// A hit and its LRU refresh happen in one critical section (see AttrCache.Get)
+	c.mu.Lock()
 	cached, ok := c.entries[path]
 	if !ok {
-		c.mu.RUnlock()
+		c.mu.Unlock()
 		atomic.AddUint64(&c.misses, 1)
 		return nil, false
 	}
 
 	// Check if expired
 	if time.Now().After(cached.validUntil) {
-		c.mu.RUnlock()
-		atomic.AddUint64(&c.misses, 1)
-
-		// Remove expired entry with re-check after lock upgrade
-		c.mu.Lock()
-		if entry, exists := c.entries[path]; exists && time.Now().After(entry.validUntil) {
-			c.removeFromAccessList(path)
-			delete(c.entries, path)
-		}
+		// Remove expired entry
+		c.removeFromAccessList(path)
+		delete(c.entries, path)
 		c.mu.Unlock()
+		atomic.AddUint64(&c.misses, 1)
 
 		return nil, false
 	}
@@ -552,14 +538,9 @@ func (c *DirCache) Get(path string) ([]os.FileInfo, bool) {
 	// Make a copy of the entries to prevent modification
 	entries := make([]os.FileInfo, len(cached.entries))
 	copy(entries, cached.entries)
-	c.mu.RUnlock()
 
 	// Update access log (LRU tracking)
-	c.mu.Lock()
-	// Revalidate that entry still exists before updating access log
-	if _, stillExists := c.entries[path]; stillExists {
-		c.updateAccessLog(path)
-	}
+	c.updateAccessLog(path)
 	c.mu.Unlock()
 
 	atomic.AddUint64(&c.hits, 1)
